@@ -7,7 +7,8 @@ Case kinds (all JSON-serialisable, self-contained; molecules are `harness.molgen
   {"kind": "prep",     "start": spec, "end": spec, "restr": None | [[i, j]…], "deform": None | [int…],
                        "ign": bool, "inq": bool}      # inq: restraint indices inside the property's quantifier
   {"kind": "route",    "species": [{"start": spec, "end": spec | None}…], "order": [int…],
-                       "restr" / "deform" / "ign": None | [[name, pyvalue]…], "labels": [str…]}
+                       "restr" / "deform" / "ign": None | [[name, pyvalue]…], "labels": [str…],
+                       "parse": True (default) | "manager" | False, "pre": [[name, None | [[i, j]…]]…] (parse False)}
 
 What reaches the optimiser is observed by replacing `gaddlemaps._alignment.minimize_molecules` (resolved at
 call time) with a recorder that returns `mol2_positions` unchanged; the `Alignment` being run is known by
@@ -33,7 +34,12 @@ RULE = ("element: 5-char names over letters/digits/symbols; resguess: ALL (L1, L
         "with duplicates / None / [], both ignore_hydrogens values, plus an out-of-quantifier stream (negative and "
         "out-of-range indices: model correspondence only); route: Manager.align_molecules on generated systems of 2-3 "
         "species (1-3 instances each, species possibly without end molecule, possibly multi-residue) with per-species "
-        "option dictionaries, unknown names and malformed values injected one kind at a time. Non-trivial = optimiser "
+        "option dictionaries (different species always get different restraints / deformation types / flags, dictionary "
+        "orders independent of the system order), unknown names and malformed values injected one kind at a time; the "
+        "same with the restraints parsed first by Manager.parse_restrictions and passed with parse_restrictions=False, "
+        "and with hand-made pre-parsed dictionaries (reversed / shuffled / rotated / subset / empty) passed with "
+        "parse_restrictions=False; besides the optimiser input the arguments of every Alignment.align_molecules call "
+        "are compared with the options stored under that species' name. Non-trivial = optimiser "
         "reached with a non-empty restraint list, a guesser result with > 1 group, or a route case with at least one "
         "option dictionary; distinct by canonical hash of the case.")
 
@@ -224,7 +230,7 @@ class Recorder:
 
         def wrapped(self_, *a, **k):
             ev = {"name": None if self_.start is None else self_.start.name, "alignment": self_,
-                  "opt": [], "done": False}
+                  "opt": [], "done": False, "args": a, "kwargs": k}
             rec.events.append(ev)
             rec._stack.append(ev)
             try:
@@ -586,6 +592,12 @@ def eval_route(ctx, case):
         for key in ("restr", "deform", "ign"):
             opts[key] = None if case[key] is None else {name: pyval(v) for name, v in case[key]}
         labels = list(case.get("labels", []))
+        # parse: True (default call) | "manager" (Manager.parse_restrictions first, then parse_restrictions=False)
+        #        | False (hand-made dictionary in the parsed format, "pre", passed with parse_restrictions=False)
+        parse = case.get("parse", True)
+        pre = None
+        if parse is False:
+            pre = {name: (None if v is None else [tuple(p) for p in v]) for name, v in case["pre"]}
         # model input: the species as the implementation holds them
         sp_toks = [str(len(man.molecule_correspondence))]
         for name, ali in man.molecule_correspondence.items():
@@ -602,13 +614,23 @@ def eval_route(ctx, case):
         err = None
         with Recorder() as rec, contextlib.redirect_stdout(io.StringIO()):
             try:
-                man.align_molecules(restrictions=opts["restr"], deformation_types=opts["deform"],
-                                    ignore_hydrogens=opts["ign"])
+                if parse is True:
+                    man.align_molecules(restrictions=opts["restr"], deformation_types=opts["deform"],
+                                        ignore_hydrogens=opts["ign"])
+                elif parse == "manager":
+                    parsed = man.parse_restrictions(opts["restr"])
+                    man.align_molecules(restrictions=parsed, deformation_types=opts["deform"],
+                                        ignore_hydrogens=opts["ign"], parse_restrictions=False)
+                else:
+                    man.align_molecules(restrictions={n: (None if v is None else list(v)) for n, v in pre.items()},
+                                        deformation_types=opts["deform"], ignore_hydrogens=opts["ign"],
+                                        parse_restrictions=False)
             except Exception as e:
                 err = errname(e)
         n_started = len(rec.events)
-        ctx.case(case, nontrivial=any(case[k] is not None for k in ("restr", "deform", "ign")))
+        ctx.case(case, nontrivial=any(case.get(k) is not None for k in ("restr", "deform", "ign", "pre")))
         ctx.count("route:" + ("err-" + err if err else "ok"))
+        ctx.count("route:parse-" + str(parse))
         ctx.count(f"route:species-{len(case['species'])}:complete-{len(complete)}")
         for l in labels:
             ctx.count("route:label:" + l)
@@ -628,21 +650,56 @@ def eval_route(ctx, case):
             ctx.oracle_fail("routing:negative-index:rejected-after-alignment-started", case, {"error": err})
 
         # ---- sentence 3, first half: options reach the alignment of exactly that species
-        if not must:
+        if not must and "preparsed-unknown-name" not in labels:
             seen = [e["name"] for e in rec.events]
+            expected_seq = list(complete) if pre is None else list(pre)
             ctx.oracle_ok()
-            if err is None and seen != list(complete):
-                ctx.oracle_fail("routing:species-aligned-not-once-each", case, {"aligned": seen, "complete": list(complete)})
+            if err is None and seen != expected_seq:
+                ctx.oracle_fail("routing:species-aligned-not-once-each", case, {"aligned": seen, "expected": expected_seq})
             for ev in rec.events:
                 name = ev["name"]
-                if not ev["done"] or not ev["opt"] or name not in complete:
+                if name not in complete:
                     continue
-                o = ev["opt"][0]
                 ali = complete[name]
-                given_r = (opts["restr"] or {}).get(name)
                 given_d = (opts["deform"] or {}).get(name)
                 given_h = (opts["ign"] or {}).get(name, True)
-                user = [tuple(p) for p in given_r] if given_r else defaults[name]
+                if pre is None:
+                    given_r = (opts["restr"] or {}).get(name)
+                    want_r = [tuple(p) for p in given_r] if given_r else None
+                else:
+                    given_r = pre.get(name)
+                    want_r = given_r
+                # (a) the arguments of the Alignment.align_molecules call of THIS species
+                ctx.oracle_ok()
+                if not ("negative-index" in labels):
+                    a = list(ev["args"]) + [None] * 3
+                    kw = ev["kwargs"]
+                    got_r = kw.get("restrictions", a[0])
+                    got_d = kw.get("deformation_types", a[1])
+                    got_h = kw.get("ignore_hydrogens", a[2] if len(ev["args"]) > 2 else True)
+                    try:
+                        got_r_n = None if got_r is None else [tuple(int(x) for x in p) for p in got_r]
+                    except Exception:
+                        got_r_n = "unreadable"
+                    if got_r_n != want_r:
+                        ctx.oracle_fail("routing:align-call-args:restraints-of-another-species-or-changed", case,
+                                        {"species": name, "given": want_r, "got": got_r_n})
+                    want_d = [int(x) for x in given_d] if given_d else None
+                    try:
+                        got_d_n = None if got_d is None else [int(x) for x in got_d]
+                    except Exception:
+                        got_d_n = "unreadable"
+                    if got_d_n != want_d:
+                        ctx.oracle_fail("routing:align-call-args:deformation-types-of-another-species-or-changed", case,
+                                        {"species": name, "given": want_d, "got": got_d_n})
+                    if got_h is not bool(given_h):
+                        ctx.oracle_fail("routing:align-call-args:ignore-hydrogens-of-another-species-or-changed", case,
+                                        {"species": name, "given": bool(given_h), "got": got_h})
+                # (b) what the optimiser of this species received
+                if not ev["done"] or not ev["opt"]:
+                    continue
+                o = ev["opt"][0]
+                user = want_r if want_r is not None else defaults[name]
                 if user is None:
                     continue
                 neg_here = negative and bool(given_r) and any(x < 0 for p in given_r for x in p)
@@ -678,9 +735,15 @@ def eval_route(ctx, case):
             b = {"calls": [(n, {k: c.get(k) for k in keys}) for n, c in calls], "err": merr}
             if a != b:
                 ctx.disagree(case, "Manager.align_molecules routing", a, b)
-        ctx.model.ask("c10_route", " ".join(sp_toks + [tok_dict(opts["restr"], tok_restr),
-                                                      tok_dict(opts["deform"], tok_deform),
-                                                      tok_dict(opts["ign"], tok_ign)]), cb, case)
+        if pre is None:
+            ctx.model.ask("c10_route", " ".join(sp_toks + [tok_dict(opts["restr"], tok_restr),
+                                                          tok_dict(opts["deform"], tok_deform),
+                                                          tok_dict(opts["ign"], tok_ign)]), cb, case)
+        else:
+            pre_t = " ".join([str(len(pre))] + [f"{hexs(n)} " + ("0" if v is None else "1 " + tok_pairs(v))
+                                                for n, v in pre.items()])
+            ctx.model.ask("c10_route_pre", " ".join(sp_toks + [pre_t, tok_dict(opts["deform"], tok_deform),
+                                                              tok_dict(opts["ign"], tok_ign)]), cb, case)
     finally:
         cleanup(files)
 
@@ -823,29 +886,60 @@ def gen_prep(ctx):
                "ign": rng.random() < 0.6, "inq": inq}
 
 
+DEFORM_POOL = [(a,) for a in range(3)] + [(a, b) for a in range(3) for b in range(3)] + \
+              [(a, b, c) for a in range(3) for b in range(3) for c in range(3)]
+
+
+def gen_system(rng):
+    """2-3 species (some without end molecule), instances in shuffled order"""
+    letters = "ABC"
+    nsp = rng.choice([2, 2, 3])
+    species = []
+    for s in range(nsp):
+        name = "SP" + letters[s]
+        ns, ne = gen_size_pair(rng, 1, 12)
+        nres = min(rng.choice([1, 1, 1, 2, 3]), ns)
+        start = G.gen_molecule(rng, name, ns, n_res=nres, hfrac=rng.choice([0, 0.3, 0.6]), prefix=letters[s])
+        end = None
+        if rng.random() < 0.85:
+            if nres <= ne and rng.random() < 0.93:
+                end = G.gen_molecule(rng, name, ne, hfrac=rng.choice([0, 0.3, 0.6]),
+                                     resnames=[rn for rn, _ in G.residues_of(start)],
+                                     res_sizes=G.split_sizes(rng, ne, nres), connected=rng.random() > 0.02)
+            else:
+                end = G.gen_molecule(rng, name, ne, n_res=rng.randint(1, 3), hfrac=rng.choice([0, 0.3, 0.6]),
+                                     prefix=letters[s], connected=rng.random() > 0.02)
+        species.append({"start": start, "end": end})
+    order = [s for s in range(nsp) for _ in range(rng.randint(1, 3))]
+    rng.shuffle(order)
+    return species, order
+
+
+def distinct_restr(rng, names, lens, kmax=6):
+    """a restraint list per name, pairwise different (so a value delivered to the wrong species shows)"""
+    out, seen = {}, []
+    for n in names:
+        for _ in range(20):
+            v = [tuple(p) for p in gen_restr(rng, lens[n][0], lens[n][1], kmax)]
+            if v not in seen or lens[n] == (1, 1):
+                break
+        seen.append(v)
+        out[n] = v
+    return out
+
+
+def distinct_flags(rng, names):
+    flags = {n: rng.random() < 0.5 for n in names}
+    if len(names) >= 2 and len(set(flags.values())) == 1:
+        n = rng.choice(list(names))
+        flags[n] = not flags[n]
+    return flags
+
+
 def gen_route(ctx):
     rng = ctx.rng
-    letters = "ABC"
     for it in range(ctx.n(1000, 22000)):
-        nsp = rng.choice([2, 2, 3])
-        species = []
-        for s in range(nsp):
-            name = "SP" + letters[s]
-            ns, ne = gen_size_pair(rng, 1, 12)
-            nres = min(rng.choice([1, 1, 1, 2, 3]), ns)
-            start = G.gen_molecule(rng, name, ns, n_res=nres, hfrac=rng.choice([0, 0.3, 0.6]), prefix=letters[s])
-            end = None
-            if rng.random() < 0.85:
-                if nres <= ne and rng.random() < 0.93:
-                    end = G.gen_molecule(rng, name, ne, hfrac=rng.choice([0, 0.3, 0.6]),
-                                         resnames=[rn for rn, _ in G.residues_of(start)],
-                                         res_sizes=G.split_sizes(rng, ne, nres), connected=rng.random() > 0.02)
-                else:
-                    end = G.gen_molecule(rng, name, ne, n_res=rng.randint(1, 3), hfrac=rng.choice([0, 0.3, 0.6]),
-                                         prefix=letters[s], connected=rng.random() > 0.02)
-            species.append({"start": start, "end": end})
-        order = [s for s in range(nsp) for _ in range(rng.randint(1, 3))]
-        rng.shuffle(order)
+        species, order = gen_system(rng)
         complete = [s for s in species if s["end"] is not None]
         cnames = [s["start"]["name"] for s in complete]
         lens = {s["start"]["name"]: (len(s["start"]["atoms"]), len(s["end"]["atoms"])) for s in complete}
@@ -858,32 +952,36 @@ def gen_route(ctx):
             return names
         if rng.random() < 0.8:
             d = []
-            for n in subset():
+            names = subset()
+            dr = distinct_restr(rng, names, lens)
+            for n in names:
                 r = rng.random()
                 if r < 0.1:
                     v = rng.choice([None, [], ()])
                 else:
-                    v = [tuple(p) for p in gen_restr(rng, lens[n][0], lens[n][1], 6)]
+                    v = dr[n]
                     if rng.random() < 0.3:
                         v = [list(p) for p in v]
                 d.append([n, v])
             dicts["restr"] = d
         if rng.random() < 0.7:
             d = []
-            for n in subset():
+            names = subset()
+            pool = rng.sample(DEFORM_POOL, len(names))      # different species get different values
+            for n, v in zip(names, pool):
                 r = rng.random()
                 if r < 0.12:
                     v = rng.choice([None, (), [], 0, False])
-                else:
-                    v = tuple(rng.randrange(3) for _ in range(rng.randint(1, 3)))
-                    if rng.random() < 0.25:
-                        v = list(v)
-                    elif rng.random() < 0.1:
-                        v = tuple(rng.choice([bool(x), float(x)]) if x < 2 else float(x) for x in v)
+                elif rng.random() < 0.25:
+                    v = list(v)
+                elif rng.random() < 0.1:
+                    v = tuple(rng.choice([bool(x), float(x)]) if x < 2 else float(x) for x in v)
                 d.append([n, v])
             dicts["deform"] = d
         if rng.random() < 0.7:
-            dicts["ign"] = [[n, rng.random() < 0.5] for n in subset()]
+            names = subset()
+            fl = distinct_flags(rng, names)
+            dicts["ign"] = [[n, fl[n]] for n in names]
 
         # ---- malformed stream: at most one kind per case
         if cnames and rng.random() < 0.45:
@@ -944,10 +1042,85 @@ def gen_route(ctx):
                                          (-1, -1)]))
                 put("restr", victim, v)
             labels.append(kind)
-        yield {"kind": "route", "species": species, "order": order,
-               "restr": None if dicts["restr"] is None else [[n, J(v)] for n, v in dicts["restr"]],
-               "deform": None if dicts["deform"] is None else [[n, J(v)] for n, v in dicts["deform"]],
-               "ign": None if dicts["ign"] is None else [[n, J(v)] for n, v in dicts["ign"]],
+        case = {"kind": "route", "species": species, "order": order,
+                "restr": None if dicts["restr"] is None else [[n, J(v)] for n, v in dicts["restr"]],
+                "deform": None if dicts["deform"] is None else [[n, J(v)] for n, v in dicts["deform"]],
+                "ign": None if dicts["ign"] is None else [[n, J(v)] for n, v in dicts["ign"]],
+                "labels": labels}
+        if rng.random() < 0.2:
+            case["parse"] = "manager"     # Manager.parse_restrictions first, result passed with parse_restrictions=False
+        yield case
+
+
+def gen_route_pre(ctx):
+    """Manager.align_molecules(parse_restrictions=False) with a hand-made dictionary in the parsed format:
+    keys in any order, any subset of the complete species; every species has its own, different,
+    restraints / deformation types / hydrogen flag"""
+    rng = ctx.rng
+    for it in range(ctx.n(500, 10000)):
+        species, order = gen_system(rng)
+        complete = [s for s in species if s["end"] is not None]
+        cnames = [s["start"]["name"] for s in complete]
+        if not cnames:
+            continue
+        lens = {s["start"]["name"]: (len(s["start"]["atoms"]), len(s["end"]["atoms"])) for s in complete}
+        labels = []
+        # the walked dictionary: permutation / subset / rotation of the complete species
+        k = rng.random()
+        keys = list(cnames)
+        if k < 0.35:
+            keys.reverse()
+        elif k < 0.6:
+            rng.shuffle(keys)
+        elif k < 0.8:
+            keys = keys[1:] + keys[:1]
+        elif k < 0.93:
+            keys = [n for n in keys if rng.random() < 0.6] or [keys[-1]]
+            rng.shuffle(keys)
+        elif k < 0.96:
+            keys = []
+        dr = distinct_restr(rng, keys, lens)
+        pre = []
+        for n in keys:
+            r = rng.random()
+            pre.append([n, None if r < 0.15 else ([] if r < 0.22 else [list(p) for p in dr[n]])])
+        # deformation types / flags for (almost) all complete species, all different, in their own orders
+        dn = [n for n in cnames if rng.random() < 0.9]
+        rng.shuffle(dn)
+        pool = rng.sample([p for p in DEFORM_POOL if p != (0, 1, 2)], len(dn))
+        deform = [[n, (list(v) if rng.random() < 0.2 else v)] for n, v in zip(dn, pool)]
+        hn = [n for n in cnames if rng.random() < 0.9]
+        rng.shuffle(hn)
+        fl = distinct_flags(rng, hn)
+        ign = [[n, fl[n]] for n in hn]
+        if rng.random() < 0.1:
+            deform = None
+        if rng.random() < 0.1:
+            ign = None
+        r = rng.random()
+        if r < 0.06:
+            victim = rng.choice(cnames)
+            bad, lab = rng.choice([((7,), "deform-value-outside-012"), ((0, 3), "deform-value-outside-012"),
+                                   ("012", "deform-not-a-sequence"), (5, "deform-not-a-sequence"),
+                                   ((0.5,), "deform-element-not-a-number-code")])
+            deform = [e for e in (deform or []) if e[0] != victim] + [[victim, bad]]
+            labels.append(lab)
+        elif r < 0.1:
+            victim = rng.choice(cnames)
+            ign = [e for e in (ign or []) if e[0] != victim] + [[victim, rng.choice([None, 1, "yes"])]]
+            labels.append("non-bool-flag")
+        elif r < 0.13:
+            deform = (deform or []) + [["ZZZ", (0,)]]
+            labels.append("unknown-name-deform")
+        elif r < 0.17:
+            # observation stream (no oracle): a key that is not a complete species in the hand-made dictionary
+            incomplete = [s["start"]["name"] for s in species if s["end"] is None]
+            pre.insert(rng.randrange(len(pre) + 1), [rng.choice(incomplete + ["ZZZ"]), None])
+            labels.append("preparsed-unknown-name")
+        yield {"kind": "route", "species": species, "order": order, "parse": False, "pre": pre,
+               "restr": None,
+               "deform": None if deform is None else [[n, J(v)] for n, v in deform],
+               "ign": None if ign is None else [[n, J(v)] for n, v in ign],
                "labels": labels}
 
 
@@ -957,3 +1130,4 @@ def generate(ctx):
     yield from gen_protein(ctx)
     yield from gen_prep(ctx)
     yield from gen_route(ctx)
+    yield from gen_route_pre(ctx)
